@@ -601,6 +601,14 @@ func (runInfo *runInfoStruct) invokeNilCoalescingOpExpr(expr *ast.NilCoalescingO
 			return
 		}
 	} else {
+		// an interrupted left side must not be swallowed
+		select {
+		case <-runInfo.ctx.Done():
+			runInfo.rv = nilValue
+			runInfo.err = ErrInterrupt
+			return
+		default:
+		}
 		runInfo.err = nil
 	}
 	runInfo.expr = expr.RHS
